@@ -11,15 +11,15 @@ PROP = dict(
     ],
     stub_notes=["serde error type of the harness (E0) discards messages instead of formatting them"],
     harnesses=[
-        H(NM, "c39", "c39_single", "single-number form: Ok => finite, >= 0, both directions equal and non-negative; NaN/inf/negative rejected; only \"inf\" accepted as string", timeout=300),
-        H(NM, "c39", "c39_map_forward", "{forward = v}: accepted value is None or >= 0, backward unlimited", timeout=300),
-        H(NM, "c39", "c39_map_backward", "{backward = v}", timeout=300),
-        H(NM, "c39", "c39_map_unknown_empty", "unknown key rejected, empty map = unlimited", timeout=300),
-        H(NM, "c39", "c39_map_dup_forward", "duplicate forward rejected", timeout=300),
-        H(NM, "c39", "c39_map_dup_backward", "duplicate backward rejected", timeout=300),
-        H(NM, "c39", "c39_map_two_fb", "{forward, backward}: both parts None or >= 0", timeout=300),
-        H(NM, "c39", "c39_map_two_bf", "{backward, forward}", timeout=300),
-        H(NM, "c39", "c39_duration", "NtpDuration / accumulated threshold: NaN and inf rejected, zero = disabled", timeout=300),
-        H(NM, "c39", "c39_map_kf_unvalidated_part", "EXPECTED TO FAIL (finding): {forward = NaN | negative} is accepted", timeout=420),
+        H(NM, "c39", "c39_single", "single-number form: Ok => finite, >= 0, both directions equal and non-negative; NaN/inf/negative rejected; only \"inf\" accepted as string", timeout=600),
+        H(NM, "c39", "c39_map_forward", "{forward = v}: accepted value is None or >= 0, backward unlimited", timeout=600),
+        H(NM, "c39", "c39_map_backward", "{backward = v}", timeout=600),
+        H(NM, "c39", "c39_map_unknown_empty", "unknown key rejected, empty map = unlimited", timeout=600),
+        H(NM, "c39", "c39_map_dup_forward", "duplicate forward rejected", timeout=600),
+        H(NM, "c39", "c39_map_dup_backward", "duplicate backward rejected", timeout=600),
+        H(NM, "c39", "c39_map_two_fb", "{forward, backward}: both parts None or >= 0", timeout=600),
+        H(NM, "c39", "c39_map_two_bf", "{backward, forward}", timeout=600),
+        H(NM, "c39", "c39_duration", "NtpDuration / accumulated threshold: NaN and inf rejected, zero = disabled", timeout=600),
+        H(NM, "c39", "c39_map_kf_unvalidated_part", "EXPECTED TO FAIL (finding): {forward = NaN | negative} is accepted", timeout=600),
     ],
 )
